@@ -2718,7 +2718,7 @@ def check_C19(run):
         img = G.make_elf(rng) if kind == 'elf' else G.make_pe(rng)
         corrupted = rng.random() < 0.45
         if corrupted:
-            img = G.corrupt(rng, img)
+            img = G.corrupt_bounded(rng, img) if kind == 'pe' else G.corrupt(rng, img)
         payload = bytes(rng.getrandbits(8) for _ in range(rng.choice([0, 1, 5, 33, 100, 1000, 4096] + ([1 << 20] if thorough and i % 500 == 0 else []))))
         name = rng.choice(['.rjembed'] * 8 + ['x', 'toolongname9'])
         lines.append(f'exe add{kind} {C.X(img)} {C.X(name)} {C.X(payload)}'); meta.append((kind, 'add', corrupted, img, name, payload))
